@@ -12,7 +12,5 @@ open Emboss.Bounds
 #print axioms C05_inv_preserved
 #print axioms C05_no_crash_arith
 #print axioms C05_inv_needs_canonical_counterexample
-#print axioms C05_inv_preserved_counterexample
-#print axioms C05_crash_counterexample
 #print axioms C05_tight_linear
 #print axioms C05_tight_choice_counterexample
